@@ -106,8 +106,13 @@ Proof. reflexivity. Qed.
 (** ** Box-Cox *)
 Lemma boxcox_body_RO y l : boxcox_body RO y l = boxcox_spec y l.
 Proof.
-  unfold boxcox_body, boxcox_spec. cbn [eqb RO zero]. unfold Reqb.
-  destruct (Req_EM_T l 0); [reflexivity|]. reflexivity.
+  (* the code computes ln y * ((e^u - 1) / u) with u = l * ln y, and ln y when l = 0 or u = 0 (then ln y = 0 = (y^l - 1)/l) *)
+  unfold boxcox_body, boxcox_spec, Rpower. cbn [eqb mul div sub f1 RO zero one ln_]. unfold Reqb, Rf1.
+  destruct (Req_EM_T l 0) as [El|Nl]; [reflexivity|]. cbn [orb].
+  destruct (Req_EM_T (l * ln y) 0) as [Eu|Nu].
+  - rewrite Eu, exp_0. destruct (Rmult_integral _ _ Eu) as [E|E]; [contradiction|]. rewrite E. field. exact Nl.
+  - assert (Hy : ln y <> 0) by (intro E; apply Nu; rewrite E; ring).
+    field. split; assumption.
 Qed.
 
 Lemma boxcox_def x l : 0 < x -> boxcox RO x l = Some (boxcox_spec x l).
